@@ -66,9 +66,77 @@ static void examine(hwloc_topology_t t, const char *srcclass, uint64_t srchash, 
   if (hwloc_topology_get_flags(t) & HWLOC_TOPOLOGY_FLAG_INCLUDE_DISALLOWED) hv_stat("loads_with_include_disallowed", 1);
 }
 
+/* ------------------------------------------------------------------ directed cases
+ * (a) regression witnesses of repaired defects (the configuration that first exposed each of them, see known_findings.json),
+ * (b) a deterministic sweep: every single (type, filter) and - all of them in the thorough tier, a seeded sample in the quick tier -
+ *     every pair ((type1, filter1), (type2, filter2)) over descriptions that contain every normal and memory object type.
+ * The random configurations of the other cases rarely draw "exactly two non-default filters"; level merging bugs typically need that. */
+static const struct { const char *src, *filters; } WITNESS[] = {
+  { "[NUMANode] Package:1 Group:5 [NUMA] Group:2 [numa] L2Cache:2 core:6 Pu:1", "Group=none Package=structure" },                 /* 462d79d */
+  { "die:4 [numa(memorysidecachesize=80373kB)] L3:2 L2:2 Core:4 Pu:1", "" },                                             /* 6f959d2 */
+  { "die:4 [numa(memorysidecachesize=80373kB)] L3:2 L2:2 Core:4 Pu:1", "MemCache=none Die=structure" },
+  { "xml:tests/hwloc/linux/40intel64-2g2n4c+pcilocality.xml", "*=none" },                                                    /* 3bd36aa */
+  { "xml:tests/hwloc/linux/40intel64-2g2n4c+pcilocality.xml", "*=structure" },
+  { "Tile:2 Module:2 pu:2", "" },                                                                                         /* affde5f */
+  { "Tile:2 Module:2 pu:2", "Group=structure" },
+  { "pack:2 [numa] group:1 [numa] die:1 [numa] l3:3 l2:1 [numa] core:2 pu:1", "*=structure" },                                    /* memory children at several merged depths */
+};
+#define NWITNESS ((unsigned)(sizeof WITNESS / sizeof *WITNESS))
+static const char *RICH[] = {
+  "[numa] pack:2 [numa] die:2 group:2 [numa(memorysidecachesize=1MB)] l3:2 l2:1 l1d:1 l1i:1 core:2 pu:2",
+  "[NUMANode] Package:1 Group:5 [NUMA] Group:2 [numa] L2Cache:2 core:6 Pu:1",
+  "group:2 numa:2 pack:1 die:2 l3:1 l2:2 core:1 pu:2",
+};
+#define NRICH 3u
+static const int SWEEP_F[] = { HWLOC_TYPE_FILTER_KEEP_NONE, HWLOC_TYPE_FILTER_KEEP_STRUCTURE, HWLOC_TYPE_FILTER_KEEP_ALL, HWLOC_TYPE_FILTER_KEEP_IMPORTANT };
+static uint64_t n_pairs_all(void) { return (uint64_t)NRICH * TG_NTYPES * TG_NTYPES * 9; }
+static uint64_t n_directed(void) { return NWITNESS + (uint64_t)NRICH * TG_NTYPES * 4 + (HV.thorough ? n_pairs_all() : 600); }
+
+static void parse_filters(const char *spec, struct tg_config *c)
+{
+  tg_config_default(c);
+  char buf[200]; snprintf(buf, sizeof buf, "%s", spec);
+  for (char *tok = strtok(buf, " "); tok; tok = strtok(NULL, " ")) {
+    char *eq = strchr(tok, '='); if (!eq) continue; *eq = 0; int f = !strcmp(eq + 1, "none") ? HWLOC_TYPE_FILTER_KEEP_NONE : !strcmp(eq + 1, "structure") ? HWLOC_TYPE_FILTER_KEEP_STRUCTURE : !strcmp(eq + 1, "important") ? HWLOC_TYPE_FILTER_KEEP_IMPORTANT : HWLOC_TYPE_FILTER_KEEP_ALL;
+    if (!strcmp(tok, "*")) { for (int ty = 0; ty < TG_NTYPES; ty++) if (ty != HWLOC_OBJ_PU && ty != HWLOC_OBJ_NUMANODE && ty != HWLOC_OBJ_MACHINE && !(ty == HWLOC_OBJ_GROUP && f == HWLOC_TYPE_FILTER_KEEP_ALL) && !(ty >= HWLOC_OBJ_BRIDGE && f == HWLOC_TYPE_FILTER_KEEP_STRUCTURE)) c->filter[ty] = f; continue; }
+    hwloc_obj_type_t ty; if (hwloc_type_sscanf(tok, &ty, NULL, 0) == 0 && (int)ty < TG_NTYPES) c->filter[ty] = f;
+  }
+}
+
+static int directed_case(uint64_t index)
+{
+  if (index >= n_directed()) return 0;
+  struct tg_config c; const char *src; const char *what;
+  if (index < NWITNESS) { src = WITNESS[index].src; parse_filters(WITNESS[index].filters, &c); what = "witness"; hv_stat("directed.witness", 1); }
+  else {
+    uint64_t k = index - NWITNESS; tg_config_default(&c);
+    if (k < (uint64_t)NRICH * TG_NTYPES * 4) { src = RICH[k % NRICH]; k /= NRICH; c.filter[k % TG_NTYPES] = SWEEP_F[(k / TG_NTYPES) % 4]; what = "single-filter sweep"; hv_stat("directed.single", 1); }
+    else {
+      k -= (uint64_t)NRICH * TG_NTYPES * 4;
+      if (!HV.thorough) { struct hv_rng pr; hv_rng_seed(&pr, HV.seed, "c01pairs", k); k = hv_below(&pr, n_pairs_all()); }
+      src = RICH[k % NRICH]; k /= NRICH; int t1 = (int)(k % TG_NTYPES); k /= TG_NTYPES; int t2 = (int)(k % TG_NTYPES); k /= TG_NTYPES;
+      c.filter[t1] = SWEEP_F[k % 3]; c.filter[t2] = SWEEP_F[(k / 3) % 3]; what = "filter-pair sweep"; hv_stat("directed.pair", 1);
+    }
+  }
+  struct hv_str cs; hv_str_init(&cs); tg_config_str(&c, &cs);
+  hv_desc("directed (%s): %s config %s\n", what, src, cs.s);
+  hv_ctxkey("load:directed");
+  int stage = 0; hwloc_topology_t t;
+  if (!strncmp(src, "xml:", 4)) { char path[4200]; snprintf(path, sizeof path, "%s/%s", HV.repo, src + 4); t = tl_load_xmlfile(path, &c, &stage); }
+  else t = tl_load_synthetic(src, &c, &stage);
+  if (!t) { hv_stat(stage == 2 ? "directed.config_rejected" : "directed.load_failed", 1);
+    if (stage != 2) hv_viol("directed.load_failed", "%s could not be loaded (stage %d) with config %s", src, stage, cs.s); }
+  else { examine(t, strncmp(src, "xml:", 4) ? "synthetic" : "xml", hv_hash_str(src, 5), &c); hv_ctxkey("destroy"); hwloc_topology_destroy(t); }
+  hv_ctxkey("%s", ""); hv_str_free(&cs);
+  hv_leak_check();
+  return 1;
+}
+
 void hv_case(uint64_t index)
 {
   hv_rng_seed(&R, HV.seed, "c01", index);
+  snap_clearenv();
+  if (directed_case(index)) return;
   struct tg_config c;
   struct hv_str cs; hv_str_init(&cs);
   unsigned cls = (unsigned)(index % 8);
